@@ -261,6 +261,11 @@ func nm(id uint32) string {
 
 // invariants returns (clause, description) of the first violated invariant.
 func (w *world) invariants(last event) (string, string) {
+	// I0: the event has returned, so nobody holds the database (a leaked cursor would make
+	// every later write fail, and the link table would stop following the graph)
+	if err := w.ts.DBIdle(); err != nil {
+		return "I0-database-still-locked", fmt.Sprintf("after %s has returned the SQLite file is still locked by the teamserver (%v): a statement or result set was left open", last, err)
+	}
 	ags := w.ts.T.Agents.Agents
 	// I1
 	count := map[*agent.Agent]int{}
